@@ -25,12 +25,16 @@ Proof.
     lra.
 Qed.
 
-(* the dimensions for which exactness survives rounding: Integer with uniform prior and bounds within +-2^47,
-   Categorical (any transform) with at most 2^47 categories *)
+(* the dimensions for which exactness survives rounding: Integer with uniform prior - under the identity transform for
+   EVERY magnitude (no arithmetic at all: spaces whose warped columns are all integral are exact for any integer),
+   under normalize with bounds within +-2^47; Categorical - identity / label / onehot for any number of categories and
+   any category values, normalize with at most 2^47 categories *)
 Definition robust_dim (d : dim) : bool :=
   match d with
-  | DInt lo hi PUniform _ => (- maxmag <=? lo)%Z && (hi <=? maxmag)%Z
-  | DCat _ cats _ => (Z.of_nat (length cats) <=? maxmag)%Z
+  | DInt lo hi PUniform TIdentity => true
+  | DInt lo hi PUniform TNormalize => (- maxmag <=? lo)%Z && (hi <=? maxmag)%Z
+  | DCat _ cats CNormalize => (Z.of_nat (length cats) <=? maxmag)%Z
+  | DCat _ _ _ => true
   | _ => false
   end.
 
@@ -105,28 +109,28 @@ Section Robust.
     wf_dim d = true -> robust_dim d = true -> in_dim d x = true -> inv_cell R lg pw d (tr_cell R lg d x) == x.
   Proof.
     intros W B I. destruct d as [lo hi p t|lo hi p t|k cats t]; [discriminate| |].
-    - destruct p as [|b]; [|discriminate]. cbn [robust_dim] in B. apply andb_true_iff in B as [B1 B2].
-      apply Z.leb_le in B1. apply Z.leb_le in B2. rewrite Zle_Qle in B1, B2.
+    - destruct p as [|b]; [|discriminate].
       cbn [wf_dim] in W. apply andb_true_iff in W as [Wl _]. apply Z.ltb_lt in Wl. rewrite Zlt_Qlt in Wl.
       cbn [in_dim] in I. apply andb_true_iff in I as [I I3]. apply andb_true_iff in I as [I1 I2].
       apply Qle_bool_iff in I1. apply Qle_bool_iff in I2. pose proof (rhe_int x I3) as E.
       cbn [inv_cell tr_cell hd]. destruct t; cbn [num_inv num_fwd].
       + rewrite clipQ_id by (split; assumption). exact E.
-      + assert (C : rhe (norm_inv R (inject_Z lo) (inject_Z hi) (norm_fwd R (inject_Z lo) (inject_Z hi) (inject_Z (rhe x)))) = rhe x).
+      + cbn [robust_dim] in B. apply andb_true_iff in B as [B1 B2].
+        apply Z.leb_le in B1. apply Z.leb_le in B2. rewrite Zle_Qle in B1, B2.
+        assert (C : rhe (norm_inv R (inject_Z lo) (inject_Z hi) (norm_fwd R (inject_Z lo) (inject_Z hi) (inject_Z (rhe x)))) = rhe x).
         { apply close_rhe. apply norm_close.
           - change (- inject_Z maxmag) with (inject_Z (- maxmag)). exact B1.
           - exact B2.
           - rewrite E. split; assumption. }
         rewrite C. rewrite clipQ_id by (rewrite E; split; assumption). rewrite rhe_inject. exact E.
-    - cbn [robust_dim] in B. apply Z.leb_le in B.
-      cbn [wf_dim] in W. apply andb_true_iff in W as [W W3]. apply andb_true_iff in W as [W1 W2].
+    - cbn [wf_dim] in W. apply andb_true_iff in W as [W W3]. apply andb_true_iff in W as [W1 W2].
       cbn [in_dim] in I. cbn [inv_cell tr_cell]. destruct t; cbn [cat_inv hd].
       + destruct k; try reflexivity.
         apply Qtrunc_int. pose proof I as I'. apply memQ_In in I' as [c [Hc E]].
         rewrite (is_intQ_comp _ _ E). rewrite forallb_forall in W2. apply W2, Hc.
       + rewrite rhe_inject. apply unrank_rank, I.
       + apply unonehot_onehot, I.
-      + rewrite !rhe_inject.
+      + cbn [robust_dim] in B. apply Z.leb_le in B. rewrite !rhe_inject.
         pose proof (rank_range cats x) as [Rg0 _]. pose proof (rank_lt cats x I) as Rg1.
         assert (C : rhe (norm_inv R 0 (inject_Z (Z.of_nat (length cats)) - 1)
                            (norm_fwd R 0 (inject_Z (Z.of_nat (length cats)) - 1) (inject_Z (rank cats x)))) = rank cats x).
